@@ -257,6 +257,33 @@ Proof.
 Qed.
 Print Assumptions C15_next_round_robin.
 
+(* The same fact where the scenarios use it: the preprocessor path source.<src>[next].<field>
+   of the concrete instance.  With k earlier evaluations on this iterator and table it yields
+   the field of row k mod len, consumes exactly one counter value of that segment, leaves every
+   other counter and the rest of the world alone; no other path expression touches a counter. *)
+Theorem C15_next_in_preprocessor :
+  (forall own src field (t : ctree) (w : cworld) rows c0,
+     assoc_table (cs_tables (t_src t)) src = Some rows -> rows <> [] ->
+     repr (w_iter w) c0 -> (N.of_nat (c0 (seg_next own src)) < two63) ->
+     exists w',
+       eval_pexpr own (PNext src field) t w =
+         Some (w', row_field rows (c0 (seg_next own src) mod length rows) field) /\
+       repr (w_iter w') (bump c0 (seg_next own src)) /\
+       w_arr w' = w_arr w /\ w_script w' = w_script w) /\
+  (forall own e (t : ctree) (w w' : cworld) r,
+     (forall src field, e <> PNext src field) ->
+     eval_pexpr own e t w = Some (w', r) -> w' = w).
+Proof. split; [exact eval_next_row|exact eval_other_keeps_iter]. Qed.
+Print Assumptions C15_next_in_preprocessor.
+
+(* Why the single critical section matters (the model's atomicity assumption is not idle): if
+   the lookup and the insert/add were two sections, two instances whose first lookups both miss
+   would both be handed row 0. *)
+Theorem C15_next_split_sections_refuted :
+  exists ops, split_run [] [] ops = [(0%nat, 0); (1%nat, 0)].
+Proof. exact split_next_refuted. Qed.
+Print Assumptions C15_next_split_sections_refuted.
+
 (* non-vacuity: two instances interleaved on one segment, 3 rows *)
 Example C15_next_example :
   let s := [46;117] in
